@@ -163,6 +163,26 @@ def gen(args) -> list:
             except Exception as e:  # noqa: BLE001
                 ev2["exc"] = type(e).__name__
             evs.append(ev2)
+            if rnd.random() < 0.3:
+                # the same instant written with another offset is a different aware datetime: its own local fields and offset
+                off3 = rnd.choice([o3 for o3 in (0, 3600, -3600, 7200, 19800, -64800, 64800) if o3 != off])
+                try:
+                    aw3 = aw.astimezone(dt.timezone(dt.timedelta(seconds=off3)))
+                except OverflowError:
+                    aw3 = None
+                if aw3 is not None:
+                    x3 = aw3.replace(tzinfo=None)
+                    ev3 = {"op": "aware_odt", "x": _xfields(x3), "off": off3, "after_same_instant": True}
+                    try:
+                        odt = OffsetDateTime.from_aware_datetime(aw3)
+                        l3 = odt.local_date_time
+                        ev3["loc"] = [l3.date._days_since_epoch, l3.nanosecond_of_day // 10**9, l3.nanosecond_of_day % 10**9]
+                        ev3["odt_off"], ev3["cal"] = odt.offset.seconds, odt.calendar.id
+                        back = odt.to_aware_datetime()
+                        ev3["back_x"], ev3["back_off"] = _xfields(back.replace(tzinfo=None)), int(back.utcoffset().total_seconds())
+                    except Exception as e:  # noqa: BLE001
+                        ev3["exc"] = type(e).__name__
+                    evs.append(ev3)
         elif c < 0.75:
             cal = rnd.choice(cals)
             off = rnd.choice([0, 64800, -64800, 3600, rnd.randint(-64800, 64800)])
@@ -246,7 +266,11 @@ def run(ctx: Ctx):
     max_ord = dt.date.max.toordinal()
     if q:
         # date round trips: both ends of the range + a random block (the thorough tier enumerates every date)
-        blocks = [(1, 1500), (max_ord - 1500, max_ord + 1)] + [(b, b + 1500) for b in [rnd.randint(1, max_ord - 1500) for _ in range(14)]]
+        # both range ends, the two ends of the 1900-2100 window (where the implementation switches between a table-driven and the
+        # general conversion; 1900 and 2100 are the non-leap century years in it), the last non-leap/leap century pair, random blocks
+        d1900, d2100, d2000, d1600 = (dt.date(y, 1, 1).toordinal() for y in (1900, 2100, 2000, 1600))
+        blocks = [(1, 1500), (max_ord - 1500, max_ord + 1), (d1900 - 400, d1900 + 1100), (d2100 - 400, d2100 + 1100), (d2000 - 100, d2000 + 500),
+                  (d1600 - 100, d1600 + 500)] + [(b, b + 1500) for b in [rnd.randint(1, max_ord - 1500) for _ in range(10)]]
     else:
         step = (max_ord + 16) // 16
         blocks = [(1 + k * step, min(1 + (k + 1) * step, max_ord + 1)) for k in range(16)]
@@ -265,7 +289,7 @@ def run(ctx: Ctx):
         return k
 
     ctx.validate("Trace_PyBridge", TRACE_CFG, None, shards=parts, key_of=key_of, ntraces=len(parts))
-    ctx.rule = ("stdlib dates (" + ("both range ends + 14 random blocks of 1500 consecutive dates" if q else "every date 0001-01-01..9999-12-31")
+    ctx.rule = ("stdlib dates (" + ("both range ends, the ends of the 1900-2100 window, 1600 and 2000, + 10 random blocks of 1500 consecutive dates" if q else "every date 0001-01-01..9999-12-31")
                 + "), times, naive/aware datetimes incl. min/max and microsecond edges, fixed offsets within +-18h, timedeltas incl. min/max; "
                 "pyoda values of every calendar around the stdlib range ends; non-trivial = every event")
 
